@@ -27,6 +27,7 @@ sys.path.insert(0, HERE)
 sys.path.insert(0, REPO)
 
 CONTRACT_MODULES = ['contracts.validators', 'contracts.ir_types', 'contracts.runtime_base', 'contracts.serializers',
+                    'contracts.cli',
                     'contracts.canary', 'lemmas.c10']
 
 
@@ -238,6 +239,10 @@ def main():
                      'n': n_here, 'seed': seed})
         if r.get('bounded_only'):
             bounded_only_funcs.append(t)
+            src = sr.get('source') or {}
+            funcs[-1].update({'file': src.get('file'), 'lines': src.get('lines'), 'sha256': src.get('sha256')})
+            if src.get('extraction_drops'):
+                funcs[-1]['extraction_drops'] = src['extraction_drops']
         bounded_checks.append({'name': ('BOUNDED STAND-IN (not proved): ' if r.get('bounded_only') else '') +
                                'native oracle comparison ' + t, 'bound': '%d sampled inputs' % n_here,
                                'cases': sr.get('accepted'), 'distinct': sr.get('distinct'),
